@@ -17,10 +17,20 @@
 (*   sig     [key, kind, ch, pub, host]   kind "cli" = Sig(key, {challenge-client, server-public-key,*)
 (*            hostname}), kind "srv" = Sig(key, {challenge-server, client-public-key, hostname});    *)
 (*            the two kinds have different parameter names, so one never verifies as the other       *)
-(*   nonces  1,2,... (fresh challenges of servers and of C), ANonce (a challenge chosen by A),       *)
-(*            0 = absent/empty                                                                       *)
+(*   nonces  1,2,.. challenge-client values of the servers (by mint), 11,12,.. challenge-server      *)
+(*            values of C, ANonce a challenge chosen by A, 0 = absent/empty                          *)
 (* Servers are stateless (the code keeps all state in the opaque blob), so the system state is the   *)
 (* set of terms in existence (= attacker knowledge), the clock and the honest client's session.      *)
+(*                                                                                                 *)
+(* Two ways of accounting for honest signatures (constant Explicit):                                *)
+(*   TRUE   a signature of C or of a server exists only once the agent made it in this behaviour    *)
+(*          (variable sigs); the attacker obtains C's signatures by playing server to C's session   *)
+(*   FALSE  honest agents sign on demand, exactly as the code lets anybody make them: C signs       *)
+(*          (challenge-client c, server key k, CHost) for any c, k (server-initiated flow towards   *)
+(*          CHost), a server signs (challenge-server c, client key k, h) for any c, k and its       *)
+(*          hostnames (client-initiated flow); sigs stays empty.  This removes the interleavings of  *)
+(*          the honest sessions from the state space; the harness makes the honest agent really      *)
+(*          produce each such signature (and enters it into its ledger) before presenting it.        *)
 (*                                                                                                 *)
 (* One action per call of PeerIDAuthHandshakeServer.Run / PeerIDAuthHandshakeClient.Run; the checks  *)
 (* inside an action are in the order of the code, so the rejection reason is the code's.             *)
@@ -35,7 +45,10 @@ CONSTANTS MaxT,        \* clock runs 0..MaxT
           MaxCli,      \* honest client sessions
           S2SameKey,   \* S2 has the identity key of S (restart with a new secret) or its own
           Verifiers,   \* servers that verify in the bounded model (S2 may be mint-only)
-          Rich         \* richer attacker menus (reflection of server nonces, more wrong signatures)
+          MintPlaces,  \* <<server, hostname>> pairs at which challenges are minted
+          Explicit,    \* see above
+          CHost,       \* the hostname C talks to when ~Explicit
+          Rich         \* richer attacker menus (more wrong signatures, more keys)
 
 None == "none"
 Servers == {"S", "S2"}
@@ -46,15 +59,15 @@ SrvKeys == {SrvKey(s) : s \in Servers}
 ANonce == 99
 
 VARIABLES now,    \* clock
-          nn,     \* next fresh nonce
           ops,    \* opaque blobs minted by the servers (challenges and tokens); all known to A
-          sigs,   \* signatures made by honest agents (servers, C); all known to A
+          sigs,   \* Explicit: signatures made by honest agents (servers, C); all known to A
           cli,    \* honest client session [st, host, chS, spk]
           ncli,   \* sessions started
+          cn,     \* challenge-server values C has generated
           op      \* output only: last action, arguments, expected observable result
 
-vars == <<now, nn, ops, sigs, cli, ncli, op>>
-View == <<now, nn, ops, sigs, cli, ncli>>
+vars == <<now, ops, sigs, cli, ncli, cn, op>>
+View == <<now, ops, sigs, cli, ncli, cn>>
 
 Chal(s, h, c, pk, t) == [mac |-> s, tok |-> FALSE, cpk |-> pk, pid |-> None, ch |-> c, host |-> h, t |-> t]
 Tok(s, h, p, t) == [mac |-> s, tok |-> TRUE, cpk |-> None, pid |-> p, ch |-> 0, host |-> h, t |-> t]
@@ -62,44 +75,47 @@ Sg(k, kind, c, pub, h) == [key |-> k, kind |-> kind, ch |-> c, pub |-> pub, host
 Bad == [key |-> "bad", kind |-> "bad", ch |-> 0, pub |-> None, host |-> None]   \* bytes that are no signature of anything
 NoSig == [key |-> None, kind |-> None, ch |-> 0, pub |-> None, host |-> None]   \* parameter absent
 
-Nonces == (1 .. (nn - 1)) \cup {ANonce}
-NMint == Cardinality({o \in ops : ~o.tok})
+Chals == {o \in ops : ~o.tok}
+NMint == Cardinality(Chals)
 NTok == Cardinality({o \in ops : o.tok})
+ChalNonces == {o.ch : o \in Chals}
 
-Init == /\ now = 0 /\ nn = 1 /\ ops = {} /\ sigs = {} /\ ncli = 0
+Init == /\ now = 0 /\ ops = {} /\ sigs = {} /\ ncli = 0 /\ cn = 0
         /\ cli = [st |-> "idle", host |-> "h1", chS |-> 0, spk |-> None]
         /\ op = [name |-> "init"]
 
-Tick == /\ now < MaxT /\ now' = now + 1
-        /\ UNCHANGED <<nn, ops, sigs, cli, ncli>>
+\* time only matters once something carries a timestamp
+Tick == /\ now < MaxT /\ ops # {}
+        /\ now' = now + 1
+        /\ UNCHANGED <<ops, sigs, cli, ncli, cn>>
         /\ op' = [name |-> "tick"]
+
+AddSigs(G) == sigs' = IF Explicit THEN sigs \cup G ELSE sigs
 
 (* ---------------------------------- server ---------------------------------- *)
 
 (* empty Authorization header: state ChallengeClient (server-initiated flow) *)
 Challenge(s, h) ==
   /\ NMint < MaxMint
-  /\ LET o == Chal(s, h, nn, None, now) IN
+  /\ LET o == Chal(s, h, NMint + 1, None, now) IN
      /\ ops' = ops \cup {o}
      /\ op' = [name |-> "challenge", srv |-> s, host |-> h, o |-> o]
-  /\ nn' = nn + 1
-  /\ UNCHANGED <<now, sigs, cli, ncli>>
+  /\ UNCHANGED <<now, sigs, cli, ncli, cn>>
 
 (* challenge-server + public-key: state SignChallenge (client-initiated flow).  The server signs    *)
 (* whatever challenge and public key it is handed, and binds the public key into the opaque.        *)
 SignChallenge(s, h, c, pk) ==
   /\ NMint < MaxMint
-  /\ LET o == Chal(s, h, nn, pk, now)
+  /\ LET o == Chal(s, h, NMint + 1, pk, now)
          g == Sg(SrvKey(s), "srv", c, pk, h) IN
      /\ ops' = ops \cup {o}
-     /\ sigs' = sigs \cup {g}
+     /\ AddSigs({g})
      /\ op' = [name |-> "sign", srv |-> s, host |-> h, c |-> c, pk |-> pk, o |-> o, sig |-> g]
-  /\ nn' = nn + 1
-  /\ UNCHANGED <<now, cli, ncli>>
+  /\ UNCHANGED <<now, cli, ncli, cn>>
 
-(* sig + opaque: state VerifyChallenge.  o is the blob as the server sees it (mac "X" if altered),  *)
-(* g the presented signature, pk the public-key parameter (None = absent, "bad" = undecodable),      *)
-(* c the challenge-server parameter (0 = absent).                                                    *)
+(* sig + opaque: state VerifyChallenge.  o is the blob as the server sees it, g the presented       *)
+(* signature, pk the public-key parameter (None = absent), c the challenge-server parameter          *)
+(* (0 = absent).                                                                                     *)
 VKey(o, pk) == IF o.cpk # None THEN o.cpk ELSE pk
 VerifyRes(s, h, o, g, pk, c) ==
   IF o.mac # s THEN "hmac"
@@ -107,36 +123,52 @@ VerifyRes(s, h, o, g, pk, c) ==
   ELSE IF o.tok THEN "kind"
   ELSE IF o.host # h THEN "host"
   ELSE IF VKey(o, pk) = None THEN "nokey"
-  ELSE IF VKey(o, pk) = "bad" THEN "badkey"
   ELSE IF g # Sg(VKey(o, pk), "cli", o.ch, SrvKey(s), h) THEN "sig"
   ELSE IF o.cpk = None /\ c = 0 THEN "nochs"
   ELSE "ok"
 
-VerifyEffect(s, h, o, g, pk, c, res) ==
-  IF res = "ok"
-  THEN /\ ops' = ops \cup {Tok(s, h, VKey(o, pk), now)}
-       /\ sigs' = IF o.cpk = None THEN sigs \cup {Sg(SrvKey(s), "srv", c, pk, h)} ELSE sigs
-  ELSE UNCHANGED <<ops, sigs>>
-
-\* signatures A can present to server s for hostname h and challenge c: every honest signature it
-\* has seen (any kind: swaps between sessions, hosts, clients, servers, reflection) and its own
-AttCliSigs(s, h, c) ==
-  {Sg("kA", "cli", c, SrvKey(s), h),                \* the right one, by A
-   Sg("kA", "cli", c, SrvKey(s), OtherHost(h)),     \* A signs for the other hostname
-   Sg("kA", "cli", c, "kA", h)}                     \* A signs for another server key
-  \cup (IF Rich THEN {Sg("kA", "cli", ANonce, SrvKey(s), h), Sg("kA", "srv", c, SrvKey(s), h)} ELSE {})
+\* signatures A can present to server s for hostname h together with blob o
+AttCliSigs(s, h, o) ==
+  {Sg("kA", "cli", o.ch, SrvKey(s), h),                \* the right one, by A
+   Sg("kA", "cli", o.ch, SrvKey(s), OtherHost(h)),     \* A signs for the other hostname
+   Sg("kA", "cli", o.ch, "kA", h)}                     \* A signs for another server key
+  \cup (IF Rich THEN {Sg("kA", "cli", ANonce, SrvKey(s), h), Sg("kA", "srv", o.ch, SrvKey(s), h)} ELSE {})
+OnDemandCliSigs(s, h, o) ==
+  IF Explicit THEN {}
+  ELSE {Sg("kC", "cli", c, k, CHost) : c \in ChalNonces, k \in SrvKeys \cup (IF Rich THEN {"kA"} ELSE {})}
+       \* reflection: the server's own signature over the same challenge value, key and hostname
+       \cup {Sg(SrvKey(s), "srv", o.ch, VKey(o, "kC"), h)}
+SigsForS(s, h, o) == sigs \cup AttCliSigs(s, h, o) \cup OnDemandCliSigs(s, h, o)
 
 PkMenu(o) == IF o.cpk = None THEN {"kC", "kA", None} \cup (IF Rich THEN {"kS"} ELSE {})
              ELSE {None} \cup (IF Rich THEN {"kA"} ELSE {})
 CsMenu(s, o) == IF o.mac = s /\ ~o.tok /\ o.cpk = None
                 THEN {0, ANonce} \cup (IF cli.chS # 0 THEN {cli.chS} ELSE {}) ELSE {0}
 
+\* The blob checks (secret, expiry, kind, hostname) come first and do not look at the other
+\* parameters.  A request whose blob fails one of them is presented with the best remaining
+\* parameters only (a signature over the blob's challenge, this server's key and this hostname by a
+\* key that can make it, and that key), which is what would pass if the failing check were absent;
+\* the full menus (swapped signatures, keys, challenges) are used once the blob passes.
+BlobOK(s, h, o) == o.mac = s /\ ~(now > o.t + ChalTTL) /\ ~o.tok /\ o.host = h
+CanSign(k, g) == k = "kA" \/ (IF Explicit THEN g \in sigs ELSE g.host = CHost)
+BestTries(s, h, o) ==
+  {<<Sg(k, "cli", o.ch, SrvKey(s), h), IF o.cpk = None THEN k ELSE None, IF o.cpk = None THEN ANonce ELSE 0>> :
+      k \in {x \in {"kA", "kC"} : (o.cpk = None \/ o.cpk = x) /\ CanSign(x, Sg(x, "cli", o.ch, SrvKey(s), h))}}
+Tries(s, h, o) ==
+  IF BlobOK(s, h, o)
+  THEN {<<g, pk, c>> : g \in SigsForS(s, h, o), pk \in PkMenu(o), c \in CsMenu(s, o)}
+  ELSE BestTries(s, h, o) \cup {<<Sg("kA", "cli", o.ch, SrvKey(s), h), IF o.cpk = None THEN "kA" ELSE None, 0>>}
+
 Verify(s, h, o, g, pk, c) ==
   LET res == VerifyRes(s, h, o, g, pk, c) IN
-  /\ VerifyEffect(s, h, o, g, pk, c, res)
+  /\ IF res = "ok"
+     THEN /\ ops' = ops \cup {Tok(s, h, VKey(o, pk), now)}
+          /\ AddSigs(IF o.cpk = None THEN {Sg(SrvKey(s), "srv", c, pk, h)} ELSE {})
+     ELSE UNCHANGED <<ops, sigs>>
   /\ op' = [name |-> "verify", srv |-> s, host |-> h, o |-> o, sig |-> g, pk |-> pk, c |-> c, alt |-> None,
             res |-> res, peer |-> IF res = "ok" THEN VKey(o, pk) ELSE None]
-  /\ UNCHANGED <<now, nn, cli, ncli>>
+  /\ UNCHANGED <<now, cli, ncli, cn>>
 
 (* single alteration of a request that would be accepted: field f of the opaque / the signature /  *)
 (* the public key is changed (the harness runs each over every byte).  Any change of the blob makes  *)
@@ -147,8 +179,8 @@ VerifyAlts(o) == OpaqueAlts \cup {"sig", "sig.trunc", "sig.ext"} \cup (IF o.cpk 
 VerifyAlt(s, h, o, g, pk, c, f) ==
   /\ VerifyRes(s, h, o, g, pk, c) = "ok"
   /\ op' = [name |-> "verify", srv |-> s, host |-> h, o |-> o, sig |-> g, pk |-> pk, c |-> c, alt |-> f,
-            res |-> IF f \in OpaqueAlts THEN "hmac" ELSE IF f = "pk" THEN "badkey" ELSE "sig", peer |-> None]
-  /\ UNCHANGED <<now, nn, ops, sigs, cli, ncli>>
+            res |-> IF f \in OpaqueAlts THEN "hmac" ELSE "sig", peer |-> None]
+  /\ UNCHANGED <<now, ops, sigs, cli, ncli, cn>>
 
 (* bearer: state VerifyBearer.  The hostname is not compared on this path (as in the code). *)
 BearerRes(s, o) ==
@@ -161,12 +193,12 @@ Bearer(s, h, o) ==
   LET res == BearerRes(s, o) IN
   /\ op' = [name |-> "bearer", srv |-> s, host |-> h, o |-> o, alt |-> None, res |-> res,
             peer |-> IF res = "ok" THEN o.pid ELSE None]
-  /\ UNCHANGED <<now, nn, ops, sigs, cli, ncli>>
+  /\ UNCHANGED <<now, ops, sigs, cli, ncli, cn>>
 
 BearerAlt(s, h, o, f) ==
   /\ BearerRes(s, o) = "ok"
   /\ op' = [name |-> "bearer", srv |-> s, host |-> h, o |-> o, alt |-> f, res |-> "hmac", peer |-> None]
-  /\ UNCHANGED <<now, nn, ops, sigs, cli, ncli>>
+  /\ UNCHANGED <<now, ops, sigs, cli, ncli, cn>>
 
 (* ------------------------------- honest client C ------------------------------- *)
 
@@ -174,24 +206,30 @@ BearerAlt(s, h, o, f) ==
 (* ("si": the token was rejected with 401, the client answers the server's challenge)               *)
 CStart(h, mode) ==
   /\ ncli < MaxCli
+  /\ Explicit \/ h = CHost
   /\ ncli' = ncli + 1
   /\ IF mode = "ci"
-     THEN /\ cli' = [st |-> "vas", host |-> h, chS |-> nn, spk |-> None]
-          /\ nn' = nn + 1
+     THEN /\ cli' = [st |-> "vas", host |-> h, chS |-> 11 + cn, spk |-> None]
+          /\ cn' = cn + 1
      ELSE /\ cli' = [st |-> "sc", host |-> h, chS |-> 0, spk |-> None]
-          /\ nn' = nn
+          /\ cn' = cn
   /\ op' = [name |-> "cstart", host |-> h, mode |-> mode, chS |-> cli'.chS]
   /\ UNCHANGED <<now, ops, sigs>>
 
-\* "srv" signatures A can present to C
+\* signatures A can present to C
 AttSrvSigs ==
   {Sg("kA", "srv", cli.chS, "kC", cli.host),
    Sg("kA", "srv", cli.chS, "kC", OtherHost(cli.host)),
    Sg("kA", "srv", cli.chS, "kA", cli.host)}
   \cup (IF Rich THEN {Sg("kA", "srv", ANonce, "kC", cli.host), Sg("kA", "cli", cli.chS, "kC", cli.host)} ELSE {})
-SigsForC == sigs \cup AttSrvSigs \cup {NoSig, Bad}
+OnDemandSrvSigs ==
+  IF Explicit THEN {}
+  ELSE {Sg(k, "srv", c, pk, h) : k \in SrvKeys, c \in {cli.chS, ANonce}, pk \in {"kC", "kA"}, h \in Hosts}
+       \* reflection: C's own signature over its own challenge
+       \cup {Sg("kC", "cli", cli.chS, "kS", cli.host)}
+SigsForC == sigs \cup AttSrvSigs \cup OnDemandSrvSigs \cup {NoSig, Bad}
 PubsForC == SrvKeys \cup {"kA", None}
-ChalsForC == IF Rich THEN Nonces \cup {0} ELSE {0, ANonce} \cup {o.ch : o \in {x \in ops : ~x.tok}}
+ChalsForC == {0, ANonce} \cup ChalNonces
 
 (* WWW-Authenticate received in state VerifyAndSignChallenge ("vas") or SignChallenge ("sc").      *)
 (* ParseHeader keeps the FIRST server public key it ever saw (spk is sticky), its error is ignored   *)
@@ -204,23 +242,23 @@ CWww(c, pk, g) ==
      IN
      IF fallback
      THEN IF c = 0 \/ spk1 = None
-          THEN /\ cli' = [cli EXCEPT !.spk = spk1, !.st = IF c = 0 THEN cli.st ELSE "sc"]
-               /\ UNCHANGED <<nn, sigs>>
+          THEN /\ cli' = [cli EXCEPT !.spk = spk1, !.st = "sc"]
+               /\ UNCHANGED <<cn, sigs>>
                /\ op' = [name |-> "cwww", c |-> c, pk |-> pk, sig |-> g, alt |-> None, res |-> "err", reports |-> None,
                          signed |-> NoSig]
-          ELSE /\ cli' = [st |-> "vc", host |-> cli.host, chS |-> nn, spk |-> spk1]
-               /\ nn' = nn + 1
-               /\ sigs' = sigs \cup {mine}
+          ELSE /\ cli' = [st |-> "vc", host |-> cli.host, chS |-> 11 + cn, spk |-> spk1]
+               /\ cn' = cn + 1
+               /\ AddSigs({mine})
                /\ op' = [name |-> "cwww", c |-> c, pk |-> pk, sig |-> g, alt |-> None, res |-> "signed", reports |-> None,
                          signed |-> mine]
      ELSE IF g # NoSig /\ spk1 # None /\ g = Sg(spk1, "srv", cli.chS, "kC", cli.host)
           THEN /\ cli' = [cli EXCEPT !.spk = spk1, !.st = "wfb"]
-               /\ sigs' = sigs \cup {mine}
-               /\ UNCHANGED nn
+               /\ AddSigs({mine})
+               /\ UNCHANGED cn
                /\ op' = [name |-> "cwww", c |-> c, pk |-> pk, sig |-> g, alt |-> None, res |-> "verified", reports |-> spk1,
                          signed |-> mine]
           ELSE /\ cli' = [cli EXCEPT !.spk = spk1]
-               /\ UNCHANGED <<nn, sigs>>
+               /\ UNCHANGED <<cn, sigs>>
                /\ op' = [name |-> "cwww", c |-> c, pk |-> pk, sig |-> g, alt |-> None, res |-> "err", reports |-> None,
                          signed |-> NoSig]
   /\ UNCHANGED <<now, ops, ncli>>
@@ -233,35 +271,34 @@ CInfo(g) ==
           /\ op' = [name |-> "cinfo", sig |-> g, alt |-> None, res |-> "done", reports |-> cli.spk]
      ELSE /\ cli' = cli
           /\ op' = [name |-> "cinfo", sig |-> g, alt |-> None, res |-> "err", reports |-> None]
-  /\ UNCHANGED <<now, nn, ops, sigs, ncli>>
+  /\ UNCHANGED <<now, ops, sigs, ncli, cn>>
 
 (* single alteration of a server answer C would accept: the signature or the server public key *)
 CAlts == {"sig", "sig.trunc", "sig.ext", "pk"}
 CWwwAlt(c, pk, g, f) ==
   /\ cli.st = "vas" /\ cli.spk = None /\ pk # None
   /\ g = Sg(pk, "srv", cli.chS, "kC", cli.host)
-  /\ g \in SigsForC
   /\ op' = [name |-> "cwww", c |-> c, pk |-> pk, sig |-> g, alt |-> f, res |-> "err", reports |-> None, signed |-> NoSig]
-  /\ UNCHANGED <<now, nn, ops, sigs, cli, ncli>>   \* (an undecodable key is not remembered; a wrong signature changes nothing)
+  /\ UNCHANGED <<now, ops, sigs, cli, ncli, cn>>   \* (an undecodable key is not remembered; a wrong signature changes nothing)
 CInfoAlt(g, f) ==
   /\ cli.st = "vc" /\ f # "pk"
   /\ g = Sg(cli.spk, "srv", cli.chS, "kC", cli.host)
-  /\ g \in SigsForC
   /\ op' = [name |-> "cinfo", sig |-> g, alt |-> f, res |-> "err", reports |-> None]
-  /\ UNCHANGED <<now, nn, ops, sigs, cli, ncli>>
+  /\ UNCHANGED <<now, ops, sigs, cli, ncli, cn>>
 
 (* ---------------------------------- next-state ---------------------------------- *)
 
-SignNonces == IF Rich THEN Nonces ELSE {ANonce} \cup (IF cli.chS # 0 THEN {cli.chS} ELSE {})
+SignNonces == {ANonce} \cup (IF cli.chS # 0 THEN {cli.chS} ELSE {}) \cup (IF Rich THEN ChalNonces ELSE {})
 
-ServerMint == \/ \E s \in Servers, h \in Hosts : Challenge(s, h)
-              \/ \E s \in Servers, h \in Hosts, c \in SignNonces, pk \in {"kC", "kA"} : SignChallenge(s, h, c, pk)
+ServerMint == \E pl \in MintPlaces :
+                 \/ Challenge(pl[1], pl[2])
+                 \/ \E c \in SignNonces, pk \in {"kC", "kA"} : SignChallenge(pl[1], pl[2], c, pk)
 
 AttackServer ==
   \/ \E s \in Verifiers, h \in Hosts, o \in ops :
-       \E g \in sigs \cup AttCliSigs(s, h, o.ch), pk \in PkMenu(o), c \in CsMenu(s, o) :
-          \/ Verify(s, h, o, g, pk, c)
-          \/ \E f \in VerifyAlts(o) : VerifyAlt(s, h, o, g, pk, c, f)
+       \E x \in Tries(s, h, o) :
+          \/ Verify(s, h, o, x[1], x[2], x[3])
+          \/ \E f \in VerifyAlts(o) : VerifyAlt(s, h, o, x[1], x[2], x[3], f)
   \/ \E s \in Verifiers, h \in Hosts, o \in ops :
           \/ Bearer(s, h, o)
           \/ \E f \in OpaqueAlts : BearerAlt(s, h, o, f)
@@ -281,24 +318,49 @@ Bound == NTok <= MaxTok
 -----------------------------------------------------------------------------------
 (* Properties *)
 
-TypeOK == /\ now \in 0..MaxT /\ nn \in Nat /\ ncli \in 0..MaxCli
+TypeOK == /\ now \in 0..MaxT /\ ncli \in 0..MaxCli /\ cn \in Nat
           /\ \A o \in ops : o.mac \in Servers /\ o.t <= now /\ o.host \in Hosts
           /\ cli.st \in {"idle", "vas", "sc", "vc", "wfb", "done"}
+          /\ (~Explicit => sigs = {})
 
-\* who can have produced signature g: an honest agent did (it is in sigs), or it is A's own key
-Signed(g) == g \in sigs \/ g.key = "kA"
+\* Who has produced signature g.  A signs anything with its own key.  Explicit: an honest agent
+\* made it in this behaviour.  ~Explicit: it is one of the signatures honest agents make on demand
+\* (C: any "cli" payload for the hostname it talks to; a server: any "srv" payload).
+Signed(g) == \/ g.key = "kA"
+             \/ Explicit /\ g \in sigs
+             \/ ~Explicit /\ g.key = "kC" /\ g.kind = "cli" /\ g.host = CHost
+             \/ ~Explicit /\ g.key \in SrvKeys /\ g.kind = "srv"
+
+(* The clauses about a single request are action properties over the step that handles it (the     *)
+(* request and its outcome are in op', which is not part of the state identity, so a state invariant *)
+(* would not be evaluated for the many requests that leave the state unchanged).  P(r, O, t): r the   *)
+(* op record of the step, O the blobs in existence after it, t the time.                              *)
 
 (* ServerReports: server s reports peer p for a request to hostname h only if p's key signed one of *)
-(* s's own unexpired challenges together with s's public key and h, or s issued an unexpired token   *)
-(* for p.                                                                                            *)
-ServerReports ==
-  (op.name = "verify" /\ op.res = "ok") =>
-     \E o \in ops : /\ o.mac = op.srv /\ ~o.tok /\ now <= o.t + ChalTTL /\ o.host = op.host
-                    /\ (o.cpk # None => o.cpk = op.peer)
-                    /\ Signed(Sg(op.peer, "cli", o.ch, SrvKey(op.srv), op.host))
-BearerReports ==
-  (op.name = "bearer" /\ op.res = "ok") =>
-     \E o \in ops : o.mac = op.srv /\ o.tok /\ o.pid = op.peer /\ now <= o.t + TokTTL
+(* s's own unexpired challenges together with s's public key and h (and, if the challenge was        *)
+(* minted for a client key, that key is p) ...                                                       *)
+ServerReportsP(r, O, t) ==
+  (r.name = "verify" /\ r.res = "ok") =>
+     \E o \in O : /\ o.mac = r.srv /\ ~o.tok /\ t <= o.t + ChalTTL /\ o.host = r.host
+                  /\ (o.cpk # None => o.cpk = r.peer)
+                  /\ Signed(Sg(r.peer, "cli", o.ch, SrvKey(r.srv), r.host))
+(* ... or s issued an unexpired token for p *)
+BearerReportsP(r, O, t) ==
+  (r.name = "bearer" /\ r.res = "ok") =>
+     \E o \in O : o.mac = r.srv /\ o.tok /\ o.pid = r.peer /\ t <= o.t + TokTTL
+
+(* Integrity: whatever is accepted was produced under the verifier's own secret, unaltered, of the  *)
+(* right kind and unexpired; nothing altered, foreign or of the wrong kind passes.                   *)
+IntegrityP(r, O, t) ==
+  /\ (r.name \in {"verify", "bearer"} /\ r.res = "ok") =>
+        /\ r.alt = None /\ r.o \in O /\ r.o.mac = r.srv
+        /\ r.o.tok = (r.name = "bearer")
+        /\ t <= r.o.t + (IF r.name = "bearer" THEN TokTTL ELSE ChalTTL)
+  /\ (r.name \in {"verify", "bearer"} /\ r.alt # None) => r.res # "ok"
+
+ServerReports == [][ServerReportsP(op', ops', now')]_vars
+BearerReports == [][BearerReportsP(op', ops', now')]_vars
+Integrity == [][IntegrityP(op', ops', now')]_vars
 
 (* every token in existence was issued to a peer that proved itself to that server for that host *)
 TokensProven ==
@@ -306,30 +368,24 @@ TokensProven ==
      \E o \in ops : /\ o.mac = k.mac /\ ~o.tok /\ o.host = k.host /\ o.t <= k.t /\ k.t <= o.t + ChalTTL
                     /\ Signed(Sg(k.pid, "cli", o.ch, SrvKey(k.mac), k.host))
 
-(* Integrity: whatever is accepted was produced under the verifier's own secret, unaltered, of the  *)
-(* right kind and unexpired; in particular nothing altered, foreign or of the wrong kind passes.     *)
-Integrity ==
-  /\ (op.name \in {"verify", "bearer"} /\ op.res = "ok") =>
-        /\ op.alt = None /\ op.o \in ops /\ op.o.mac = op.srv
-        /\ op.o.tok = (op.name = "bearer")
-        /\ now <= op.o.t + (IF op.name = "bearer" THEN TokTTL ELSE ChalTTL)
-  /\ (op.name \in {"verify", "bearer"} /\ op.alt # None) => op.res # "ok"
-
 (* ClientReports: C reports server key q (PeerID() succeeds in states wfb / done) only if q's key   *)
 (* signed C's own current challenge, C's public key and the hostname C is talking to.                *)
 ClientReports ==
-  cli.st \in {"wfb", "done"} => /\ cli.spk # None
+  cli.st \in {"wfb", "done"} => /\ cli.spk # None /\ cli.chS # 0
                                /\ Signed(Sg(cli.spk, "srv", cli.chS, "kC", cli.host))
-ClientOpReports ==
-  (op.name \in {"cwww", "cinfo"} /\ op.reports # None) =>
-      op.reports = cli.spk /\ cli.st \in {"wfb", "done"}
+ClientOpReportsP(r, c) ==
+  (r.name \in {"cwww", "cinfo"} /\ r.reports # None) =>
+      /\ r.reports = c.spk /\ c.st \in {"wfb", "done"}
+      /\ Signed(Sg(r.reports, "srv", c.chS, "kC", c.host))
+ClientOpReports == [][ClientOpReportsP(op', cli')]_vars
 
 (* honest agents only sign their own kind (no reflection): servers "srv", C "cli" *)
 KindsSeparate == \A g \in sigs : (g.key \in SrvKeys => g.kind = "srv") /\ (g.key = "kC" => g.kind = "cli")
 
-(* vacuity guards (expected to be violated) *)
-ReachServerReportsC == ~(op.name = "verify" /\ op.res = "ok" /\ op.peer = "kC")
-ReachBearerC == ~(op.name = "bearer" /\ op.res = "ok" /\ op.peer = "kC")
+(* vacuity guards (each expected to be violated in a suitable instance) *)
+ReachServerReportsC == [][~(op'.name = "verify" /\ op'.res = "ok" /\ op'.peer = "kC")]_vars
+ReachBearerC == [][~(op'.name = "bearer" /\ op'.res = "ok" /\ op'.peer = "kC")]_vars
+ReachExpiredTok == [][~(op'.name = "bearer" /\ op'.res = "expired")]_vars
+ReachExpiredChal == [][~(op'.name = "verify" /\ op'.res = "expired")]_vars
 ReachClientDoneS == ~(cli.st = "done" /\ cli.spk = "kS")
-ReachExpired == ~(op.name \in {"verify", "bearer"} /\ op.res = "expired")
 =============================================================================
